@@ -30,15 +30,16 @@ from vf import core
 
 LEVEL = "model_checking"
 KINDS = ["sb21", "sb20", "advp", "sb21cfg", "mbi_class", "mbi_cfg", "otfad", "iee", "bee", "hexstr", "hab",
-         "sb21cfg_same", "mbi_cfg_same"]  # *_same: one configuration dictionary object reused for every build of that kind
+         "sb21cfg_same", "mbi_cfg_same",  # *_same: one configuration dictionary object reused for every build of that kind
+         "hab_same"]                       # every HAB build of the history in the same workspace folder (rebuild)
 CHILD = os.path.join(os.path.dirname(os.path.abspath(__file__)), "c17_child.py")
 
 
-def run_child(hist: list, seed: str, real: bool = False) -> dict:
+def run_child(hist: list, seed: str, real: Any = False) -> dict:
     env = dict(os.environ)
     env["PYTHONHASHSEED"] = "0"
     env["SPSDK_CACHE_FOLDER"] = os.environ.get("SPSDK_CACHE_FOLDER", "/var/tmp/vf-c17-cache")
-    cmd = [sys.executable, CHILD, seed, json.dumps(hist)] + (["real"] if real else [])
+    cmd = [sys.executable, CHILD, seed, json.dumps(hist)] + ([real if isinstance(real, str) else "real"] if real else [])
     p = subprocess.run(cmd, capture_output=True, text=True, env=env, timeout=300, cwd=os.environ.get("VERIF_WORKDIR", "/tmp"))
     i = p.stdout.find("C17JSON")
     if i < 0:
@@ -153,7 +154,7 @@ def histories(tier: str) -> list:
     if tier == "quick":
         out = [[k] for k in KINDS]
         out += [list(t) for t in itertools.product(CORE_KINDS, repeat=2)]
-        for k, sib in (("sb21cfg", "sb21cfg_same"), ("sb21cfg_same", "sb21"), ("mbi_cfg_same", "mbi_cfg"), ("hab", "hab")):
+        for k, sib in (("sb21cfg", "sb21cfg_same"), ("sb21cfg_same", "sb21"), ("mbi_cfg_same", "mbi_cfg"), ("hab", "hab"), ("hab_same", "hab")):
             for o in dict.fromkeys([k, sib, "sb21", "mbi_class", "otfad"]):
                 for h in ([k, o], [o, k]):
                     if h not in out:
@@ -185,12 +186,24 @@ def run(ctx: core.Ctx) -> None:
         for f, v in x.get("fields", {}).items():
             if v is not None and y.get("fields", {}).get(f) == v:
                 ctx.viol("C17.cross-process-equal", f"{x['kind']}.{f}", ["sb21", "mbi_class", "otfad"], "two real processes chose the same value")
+    # fork without exec (multiprocessing's default on Linux): entropy state duplicated into the children would give
+    # the n-th secret of worker A == the n-th secret of worker B. Real entropy, deterministic detection.
+    fk = run_child(CORE_KINDS, "x", real="forkreal")
+    groups = [fk["parent"]] + fk["children"]
+    for i in range(len(groups)):
+        for j in range(i + 1, len(groups)):
+            for x, y in zip(groups[i], groups[j]):
+                for f, v in x.get("fields", {}).items():
+                    if v is not None and y.get("fields", {}).get(f) == v:
+                        ctx.viol("C17.fork-shared-secret", f"{x['kind']}.{f}", {"forked_processes": CORE_KINDS},
+                                 f"processes {i} and {j} (0 = parent, others forked from it after its own builds) chose the same value")
+    ctx.count("forked_process_builds", 3 * len(CORE_KINDS))
     ctx.cov["states"] = len(states)
     ctx.cov["transitions"] = trans
     ctx.cov["traces_validated_against_impl"] = len(hs)
     ctx.cov["history_length_bound"] = 2 if ctx.tier == "quick" else 3
     ctx.cov["kinds"] = KINDS
-    ctx.rule = ("all sequences with repetition of artifact constructions (13 kinds: SB2.0, SB2.1 by class and by config, advanced "
+    ctx.rule = ("all sequences with repetition of artifact constructions (14 kinds: SB2.0, SB2.1 by class and by config, advanced "
                 "params, encrypted MBI by class and by config, OTFAD, IEE, BEE blobs, load_hex_string(None), HAB encrypted via "
                 "the CLI) up to the length bound, each in a fresh interpreter under a counting RNG installed before import, run "
                 "under two generator seeds; distinct = distinct histories; every history is an implementation run")
@@ -199,6 +212,9 @@ def run(ctx: core.Ctx) -> None:
 
 
 def replay(ctx: core.Ctx, rec: dict) -> bool:
+    if isinstance(rec["case"], dict):
+        run(ctx)
+        return any(k[0] == rec["clause"] for k in ctx.viols)
     res = w_history(rec["case"])
     hits = [v for v in res["viol"] if v[0] == rec["clause"] and v[1] == rec["disc"]]
     for h in hits[:3]:
